@@ -24,6 +24,8 @@ pub enum Channel {
     StdinDash(String),
     /// like StdinNoArg, written in two chunks with a pause in between
     StdinChunked(String, usize, u64),
+    /// data text as the second argument while stdin carries an unrelated, valid JSON text that must be ignored
+    ArgWithDecoyStdin(String, String),
 }
 
 pub fn bin(profile: &str) -> Option<String> {
@@ -55,6 +57,10 @@ fn run_limited(bin: &str, rule_text: &str, channel: &Channel, limit_s: u64) -> R
             Some((d, None))
         }
         Channel::StdinChunked(d, at, ms) => Some((d, Some((*at, *ms)))),
+        Channel::ArgWithDecoyStdin(d, decoy) => {
+            cmd.arg(d);
+            Some((decoy, None))
+        }
     };
     cmd.env("RUST_BACKTRACE", "0").stdin(if stdin_text.is_some() { Stdio::piped() } else { Stdio::null() }).stdout(Stdio::piped()).stderr(Stdio::piped());
     let mut child = cmd.spawn().map_err(|e| format!("cannot spawn {}: {}", bin, e))?;
